@@ -22,8 +22,8 @@ theorem evalAt_ok (ops : SpecOps σ K) (c : σ) (s : Seq) (st st' : St σ K) (e 
   | ok e' => rw [hev] at h; simp only [liftFault, Except.ok.injEq] at h; rw [h.1]
 
 /-- the final check succeeds only if every constraint (enforced or not) evaluated as passing -/
-theorem finalCheck_ok (ops : SpecOps σ K) (s : Seq) (cs : List σ) (st st' : St σ K)
-    (h : finalCheck ops s cs st = (.ok (), st')) : ∀ c ∈ cs, PassesAt ops c s := by
+theorem finalCheck_ok (ops : SpecOps σ K) (s : Seq) (all cs : List σ) (st st' : St σ K)
+    (h : finalCheck ops s all cs st = (.ok (), st')) : ∀ c ∈ cs, PassesAt ops c s := by
   induction cs generalizing st with
   | nil => simp
   | cons c cs ih =>
@@ -37,11 +37,31 @@ theorem finalCheck_ok (ops : SpecOps σ K) (s : Seq) (cs : List σ) (st st' : St
         rcases List.mem_cons.1 hd with rfl | hd
         · exact ⟨_, e, evalAt_ok ops _ s st st1 e hev, hp⟩
         · exact ih st1 h d hd
-      · simp at h
+      · split at h <;> simp at h
+
+theorem evalAt_err (ops : SpecOps σ K) (c : σ) (s : Seq) (st st' : St σ K) (e : Err)
+    (h : evalAt ops c s st = (.error e, st')) : ∃ n, e = .fault n := by
+  simp only [evalAt, Prod.mk.injEq] at h
+  cases hx : ops.evaluate c s st.nEval with
+  | error n => rw [hx] at h; simp only [liftFault, Except.error.injEq] at h; exact ⟨n, h.1.symm⟩
+  | ok v => rw [hx] at h; simp [liftFault] at h
+
+theorem evaluateAll_err (ops : SpecOps σ K) (s : Seq) (cs : List σ) (st st' : St σ K) (e : Err)
+    (h : evaluateAll ops s cs st = (.error e, st')) : ∃ n, e = .fault n := by
+  induction cs generalizing st with
+  | nil => simp [evaluateAll] at h
+  | cons c cs ih =>
+    simp only [evaluateAll] at h
+    split at h
+    · rename_i e' st1 hev
+      simp only [Prod.mk.injEq, Except.error.injEq] at h
+      obtain ⟨n, hn⟩ := evalAt_err ops c s st st1 e' hev
+      exact ⟨n, by rw [← h.1, hn]⟩
+    · exact ih _ h
 
 /-- the final check fails only with `NoSolutionError` or an exception thrown by a specification -/
-theorem finalCheck_err (ops : SpecOps σ K) (s : Seq) (cs : List σ) (st st' : St σ K) (e : Err)
-    (h : finalCheck ops s cs st = (.error e, st')) : (∃ w, e = .noSolution w) ∨ (∃ n, e = .fault n) := by
+theorem finalCheck_err (ops : SpecOps σ K) (s : Seq) (all cs : List σ) (st st' : St σ K) (e : Err)
+    (h : finalCheck ops s all cs st = (.error e, st')) : (∃ w, e = .noSolution w) ∨ (∃ n, e = .fault n) := by
   induction cs generalizing st with
   | nil => simp [finalCheck] at h
   | cons c cs ih =>
@@ -49,13 +69,16 @@ theorem finalCheck_err (ops : SpecOps σ K) (s : Seq) (cs : List σ) (st st' : S
     split at h
     · rename_i e' st1 hev
       simp only [Prod.mk.injEq, Except.error.injEq] at h
-      simp only [evalAt, Prod.mk.injEq] at hev
-      cases hx : ops.evaluate c s st.nEval with
-      | error n => rw [hx] at hev; simp only [liftFault, Except.error.injEq] at hev; right; exact ⟨n, by rw [← h.1, ← hev.1]⟩
-      | ok v => rw [hx] at hev; simp [liftFault] at hev
+      obtain ⟨n, hn⟩ := evalAt_err ops c s st st1 e' hev
+      right; exact ⟨n, by rw [← h.1, hn]⟩
     · split at h
       · exact ih _ h
-      · simp only [Prod.mk.injEq, Except.error.injEq] at h; left; exact ⟨_, h.1.symm⟩
+      · split at h
+        · rename_i e' st2 hall
+          simp only [Prod.mk.injEq, Except.error.injEq] at h
+          obtain ⟨n, hn⟩ := evaluateAll_err ops s all _ st2 e' hall
+          right; exact ⟨n, by rw [← h.1, hn]⟩
+        · simp only [Prod.mk.injEq, Except.error.injEq] at h; left; exact ⟨_, h.1.symm⟩
 
 /-- **C01, main clause.**  If `resolve_constraints()` returns normally on a problem with at least
     one constraint that is not enforced by the mutation space, then every constraint of the problem —
@@ -75,12 +98,12 @@ theorem resolve_ok_all_pass (ops : SpecOps σ K) (sett : Settings) (F : Frame σ
     | error e => simp at h
     | ok u =>
       simp only at h
-      cases hfc : finalCheck ops s1 F.constraints st1 with
+      cases hfc : finalCheck ops s1 F.constraints F.constraints st1 with
       | mk r2 st2 =>
         rw [hfc] at h
         simp only [Prod.mk.injEq] at h
         obtain ⟨rfl, rfl, rfl⟩ := h
-        exact finalCheck_ok ops s1 F.constraints st1 st2 hfc
+        exact finalCheck_ok ops s1 F.constraints F.constraints st1 st2 hfc
 
 /-- when every constraint is enforced by the mutation space the sequence is returned untouched
     (no evaluation, no random draw): the conclusion then rests on the soundness of the
